@@ -79,7 +79,7 @@ class GenResult:
 
 def compile_protos(files: Dict[str, str], opts: Optional[List[str]] = None, tag: str = "g",
                    want_descriptor: bool = True, extra_src: Optional[str] = None,
-                   timeout: int = 300) -> GenResult:
+                   timeout: int = 3000) -> GenResult:
     """Write ``files`` (relative path -> text), run protoc with the plugin, return result.
 
     The output directory is itself an importable package (``<tag>_<pid>_<n>``) so that
